@@ -413,9 +413,13 @@ def inert_site(rng):
     # names that read as a URL scheme when they start a relative link: present in every site, as a directory and as recipe files
     d["subdirs"].append(dict(name="mailto:cook", readme=None, assets=[], subdirs=[],
                              recipes=[dict(file="javascript:alert(1).md", title="Plain 1", servings=2, links=[]), dict(file="http:pie.md", title="Plain 2", servings=None, links=[])]))
+    # categories whose readme is a title and nothing else (what a page then says about the category can only come from the title)
+    for j, t in enumerate(["Tips \\<b\\>bold\\</b\\> & more", "\\<i\\>x & y", "Soups &lt;b&gt; &amp; stews"]):
+        d["subdirs"].append(dict(name="bare %d" % j, readme=dict(file="README.md", title=t, links=[], body="", keep_title=True), assets=[], subdirs=[],
+                                 recipes=[dict(file="r.md", title="Plain 3", servings=2, links=[])]))
     k = rng.randrange(len(NASTY_TITLES))
     for rel, dd in gen_site.walk(d):
-        if dd["readme"]:
+        if dd["readme"] and not dd["readme"].get("keep_title"):
             k += 1
             dd["readme"]["title"] = RECIPE_TITLES[k % len(RECIPE_TITLES)]
         for r in dd["recipes"]:
